@@ -119,9 +119,12 @@ CLAIMED = {
         category="model_checking",
         text=("For all key/signature/hash bytes at the listed lengths, ECDSA verify_hash on P-256 and secp256k1 accepts "
               "exactly when the signature has even length, surplus leading bytes are zero, r and s strictly decode "
-              "below n and are non-zero, and r equals x([h/s]G+[r/s]Q) mod n with h the big-endian first 32 hash bytes."),
+              "below n and are non-zero, and r equals x([h/s]G+[r/s]Q) mod n with h the big-endian first 32 hash bytes. "
+              "sign_hash of both curves: h, the documented nonce (P-256: RFC 6979 HMAC-SHA-256 chain with the extra randomness in both "
+              "keying steps; secp256k1: SHA-512(le(x) || le(h) || extra) mod n, 0 -> 1), R = mulgen(k), r, s = (h + x*r)/k, the output "
+              "layout, the acceptance conditions and the documented next candidate on rejection."),
         design_ref="DESIGN.md 3 C08, 8",
-        note="Glue only (stub contracts: C05/C06/C10/C12). sign_hash / nonce derivation is not posed.",
+        note="Glue only (stub contracts: C01/C04/C05/C06/C10/C12/C17). Retry loop of sign_hash bounded to its first iteration; that a produced signature verifies is not separately decided.",
     ),
     "C09": dict(
         engine="llsym",
@@ -129,9 +132,11 @@ CLAIMED = {
         category="model_checking",
         text=("For all key/signature/hash-name/data bytes at the listed lengths, jq255e and jq255s verify accepts exactly "
               "when the signature is 48 bytes, s is canonical and the first 16 bytes of BLAKE2s(encode([s]B-[c]Q) || pk || "
-              "tag || data) equal c, with c the little-endian 128-bit multiplier."),
+              "tag || data) equal c, with c the little-endian 128-bit multiplier; GLS254 likewise with c0 + c1*mu. Signing (deterministic, seeded, "
+              "randomized) of the three groups: per-signature secret, R, challenge, response scalar and layout as documented, and the "
+              "verifier run on the signer's output terms accepts (sign_then_verify). ECDH: both outcomes, key derivation inputs."),
         design_ref="DESIGN.md 3 C09, 8",
-        note="Glue only. GLS254, signing and ECDH key-derivation glue are not posed (ECDH totality: C19, constant time: C02).",
+        note="Glue only (stub contracts: C04/C05/C06/C10/C17); the group identity [s]B - [c']Q = [k]B is an assumption of sign_then_verify. ECDH totality: C19, constant time: C02.",
     ),
     "C04": dict(
         engine="polyid",
@@ -228,7 +233,7 @@ CLAIMED = {
               "acceptance condition are decided on the real IR."),
         design_ref="DESIGN.md 3 C07, 8",
         note=("Glue only: the stubs' contracts are C05/C06/C17/C10/C04. Ed448 verification glue (SHAKE256 via uninterpreted Keccak-f) and Ed25519 "
-              "from_seed / sign_raw / sign_ctx / sign_ph glue (deterministic RFC 8032 signature) are included; the Ed448 signing side is not posed. "
+              "and Ed448 from_seed / sign_raw / sign_ctx / sign_ph glue (deterministic RFC 8032 signature) are included. "
               "Uses the in-repo cfg hook pornin_crrl_verif_cut (inline(never) on cut points)."),
     ),
 }
@@ -259,7 +264,7 @@ man = {
         "guard": "pornin_crrl_verif",
         "enable": "RUSTFLAGS='--cfg pornin_crrl_verif' for the drivers/harnesses that checks append to a scratch copy of /repo; '--cfg pornin_crrl_verif_cut' additionally turns on the in-repo hook (inline(never) on cut-point functions) for the protocol-glue checks",
         "baseline_off_cmd": "cd /repo && cargo test --workspace --no-fail-fast --offline",
-        "source_commits": ["7439f2c"],
+        "source_commits": ["7439f2c", "62d817a"],
         "add_only": True,
     },
     "engines": [
